@@ -96,7 +96,7 @@ func init() {
 	mutant("refused-data-ok-but-priority-skip", "hdr-must-decode", "serverConn.go", "				if fr.Stream() < sc.lastID {\n					sc.writeGoAway(fr.Stream(), ProtocolError, \"stream ID is lower than the latest\")\n					continue\n				}", "				if fr.Stream() < sc.lastID {\n					sc.writeReset(fr.Stream(), ProtocolError)\n					continue\n				}")
 	mutant("data-on-closed-stream-reset-only", "data-must-credit", "serverConn.go", "					default:\n						sc.writeGoAway(fr.Stream(), StreamClosedError, \"frame on closed stream\")\n					}", "					default:\n						sc.writeReset(fr.Stream(), StreamClosedError)\n					}")
 	mutant("refill-wrong-increment", "recv-window-refill", "serverConn.go", "		inc := sc.maxWindow - sc.currentWindow\n		sc.currentWindow = sc.maxWindow", "		inc := sc.maxWindow\n		sc.currentWindow = sc.maxWindow")
-	mutant("cli-debit-data-length", "recv-window-refill", "conn.go", "		c.currentWindow -= int32(fr.Len())", "		c.currentWindow -= int32(fr.Body().(*Data).Len())")
+	mutant("cli-debit-data-length", "recv-window-refill", "conn.go", "		c.consumeConnWindow(fr.Len())\n\n		data := fr.Body().(*Data)", "		c.consumeConnWindow(fr.Body().(*Data).Len())\n\n		data := fr.Body().(*Data)")
 	mutant("zero-increment-possible", "increment-positive", "serverConn.go", "	if n <= 0 {\n		return\n	}\n\n	// The body has already been copied", "	if n < 0 {\n		return\n	}\n\n	// The body has already been copied")
 	// ---- client
 	mutant("nextid-plus-one", "cli-stream-id", "conn.go", "atomic.StoreUint32(&c.nextID, id+2)", "atomic.StoreUint32(&c.nextID, id+1)")
@@ -194,7 +194,7 @@ func init() {
 	mutant("handlerstop-not-deferred", "stop-channels-closed", "serverConn.go", "	defer close(sc.handlerStop)\n", "	defer func() {\n		if sc.debug {\n			close(sc.handlerStop)\n		}\n	}()\n")
 	mutant("trailer-block-resets-validation", "validator-state-monotone", "serverConn.go", "	if fr.Type() != FrameContinuation {\n		strm.blockFields = 0\n	}", "	if fr.Type() != FrameContinuation {\n		strm.blockFields = 0\n		strm.regularSeen = false\n	}")
 	mutant("writeloop-retryable-fallback", "retryable-pre-wire", "conn.go", "		lastErr = io.ErrUnexpectedEOF\n	}\n\n	c.setLastErr(lastErr)", "		lastErr = c.closeErr()\n	}\n\n	c.setLastErr(lastErr)")
-	mutant("refill-skipped-on-endstream", "recv-window-refill", "serverConn.go", "	if !fr.Flags().Has(FlagEndStream) {\n		sc.writeWindowUpdate(strm.ID(), n)\n	}\n\n	sc.currentWindow -= int32(n)", "	sc.currentWindow -= int32(n)\n\n	if fr.Flags().Has(FlagEndStream) {\n		return\n	}\n\n	sc.writeWindowUpdate(strm.ID(), n)\n")
+	mutant("refill-skipped-on-endstream", "data-must-credit", "serverConn.go", "	if !fr.Flags().Has(FlagEndStream) {\n		sc.writeWindowUpdate(strm.ID(), n)\n	}\n\n	sc.consumeConnRecvWindow(n)", "	if fr.Flags().Has(FlagEndStream) {\n		return\n	}\n\n	sc.writeWindowUpdate(strm.ID(), n)\n\n	sc.consumeConnRecvWindow(n)")
 	mutant("client-framesize-value-guard", "settings-presence-guard", "conn.go", "	atomic.StoreUint32(&c.maxFrameSize, c.serverS.MaxFrameSize())", "	if size := c.serverS.MaxFrameSize(); size != defaultDataFrameSize {\n		atomic.StoreUint32(&c.maxFrameSize, size)\n	}")
 }
 
